@@ -407,13 +407,13 @@ func (t *Terminal) countToLeftWord() int {
 
 	pos := t.pos - 1
 	for pos > 0 {
-		if t.line[pos] != ' ' {
+		if !isBlank(t.line[pos]) {
 			break
 		}
 		pos--
 	}
 	for pos > 0 {
-		if t.line[pos] == ' ' {
+		if isBlank(t.line[pos]) {
 			pos++
 			break
 		}
@@ -428,18 +428,23 @@ func (t *Terminal) countToLeftWord() int {
 func (t *Terminal) countToRightWord() int {
 	pos := t.pos
 	for pos < len(t.line) {
-		if t.line[pos] == ' ' {
+		if isBlank(t.line[pos]) {
 			break
 		}
 		pos++
 	}
 	for pos < len(t.line) {
-		if t.line[pos] != ' ' {
+		if !isBlank(t.line[pos]) {
 			break
 		}
 		pos++
 	}
 	return pos - t.pos
+}
+
+// isBlank: what separates words on the line (a typed TAB is kept as a TAB).
+func isBlank(r rune) bool {
+	return r == ' ' || r == '\t'
 }
 
 // visualLength returns the number of visible glyphs in s.
